@@ -13,6 +13,16 @@
 // by `if verifOn { ... }` and assignments from `verif*()` calls are the
 // verification hooks and are treated as absent.
 //
+// Equivalent spellings are recognised as the same code (robust.go): a local
+// closure called as a statement is read as its body, at the call (`clean`,
+// `walkStmts`); a local bound once to a field of the receiver that nobody writes
+// is printed as that field (`text`); `for { v, ok := <-ch; if !ok { break }; ... }`
+// is `for v := range ch { ... }` (`asChanLoop`: the worker's loop and the drain);
+// an if/else is read with its condition in the positive (`positiveIfElse`); a
+// deferred function that is one `if !clean { ... }` is the guard `if clean {
+// return }` followed by the body; `e := j.ctx.Err()` bound once ahead of the
+// worker's chain of tests is read as the chain's own `if e := j.ctx.Err(); ...`.
+//
 // Markers are `name` or `name:detail` (detail = gofmt-printed source text).
 // Whatever is not recognised becomes an `unknown:<text>` marker, so that the
 // pin-down obligations of CffVerif/Tie/Facts.lean fail instead of passing.
@@ -72,8 +82,8 @@ func isHook(s ast.Stmt) bool {
 	return false
 }
 
-// clean drops the hook statements.
-func clean(list []ast.Stmt) []ast.Stmt {
+// dropHooks drops the hook statements.
+func dropHooks(list []ast.Stmt) []ast.Stmt {
 	var out []ast.Stmt
 	for _, s := range list {
 		if !isHook(s) {
@@ -83,11 +93,98 @@ func clean(list []ast.Stmt) []ast.Stmt {
 	return out
 }
 
-func cleanBlock(b *ast.BlockStmt) []ast.Stmt {
+// clean drops the hook statements and replaces a call of a local closure
+// (`release(job)` with `release := func(j *ScheduledJob) { ... }` bound once in
+// the function being scanned) by the closure's body, parameters renamed to the
+// arguments: the statements are recognised where they RUN, not where they are
+// spelled.  A closure that cannot be inlined (see inlineClosureCall) stays a call
+// statement, which no recogniser accepts.
+func (w *wscan) clean(list []ast.Stmt) []ast.Stmt {
+	return w.cleanDepth(list, 0)
+}
+
+func (w *wscan) cleanDepth(list []ast.Stmt, depth int) []ast.Stmt {
+	var out []ast.Stmt
+	for _, s := range list {
+		if isHook(s) || w.isResolvedDef(s) {
+			continue
+		}
+		if depth < 4 {
+			if body, ok := w.r.inlineClosureCall(s, w.ld); ok {
+				out = append(out, w.cleanDepth(body, depth+1)...)
+				continue
+			}
+		}
+		out = append(out, s)
+	}
+	return out
+}
+
+// isResolvedDef: the statement does nothing but bind a local that is resolved
+// wherever it is used: `f := func(...) {...}` of a single-assignment closure
+// (its body is looked at where f is called; any other use of f leaves a statement
+// no recogniser accepts), or `c := s.field` of a stable hoist (text prints c as
+// s.field).
+func (w *wscan) isResolvedDef(s ast.Stmt) bool {
+	if w.ld == nil {
+		return false
+	}
+	var names []*ast.Ident
+	var vals []ast.Expr
+	switch x := s.(type) {
+	case *ast.AssignStmt:
+		if x.Tok != token.DEFINE || len(x.Lhs) != len(x.Rhs) {
+			return false
+		}
+		for i, l := range x.Lhs {
+			id, ok := l.(*ast.Ident)
+			if !ok {
+				return false
+			}
+			names, vals = append(names, id), append(vals, x.Rhs[i])
+		}
+	case *ast.DeclStmt:
+		gd, ok := x.Decl.(*ast.GenDecl)
+		if !ok || gd.Tok != token.VAR {
+			return false
+		}
+		for _, sp := range gd.Specs {
+			vs := sp.(*ast.ValueSpec)
+			if len(vs.Values) != len(vs.Names) {
+				return false
+			}
+			names, vals = append(names, vs.Names...), append(vals, vs.Values...)
+		}
+	default:
+		return false
+	}
+	if len(names) == 0 {
+		return false
+	}
+	for i, id := range names {
+		if fl, ok := w.ld.closures[id.Name]; ok && ast.Unparen(vals[i]) == ast.Expr(fl) {
+			continue
+		}
+		if v, ok := w.hoists[id.Name]; ok && v == vals[i] {
+			continue
+		}
+		return false
+	}
+	return true
+}
+
+func (w *wscan) cleanBlock(b *ast.BlockStmt) []ast.Stmt {
 	if b == nil {
 		return nil
 	}
-	return clean(b.List)
+	return w.clean(b.List)
+}
+
+// enter makes fd the function being scanned: its single-assignment locals are
+// resolved from here on (closures by clean, hoisted field reads by text).
+func (w *wscan) enter(fd *ast.FuncDecl) {
+	w.ld = scanLocalDefs(fd)
+	w.hoists = stableHoists(w.written, fd, w.ld)
 }
 
 // ---------------------------------------------------------------------------
@@ -97,6 +194,12 @@ func cleanBlock(b *ast.BlockStmt) []ast.Stmt {
 type wscan struct {
 	r  *repo
 	wf *wiringFacts
+
+	// the function being scanned (see enter)
+	file    *ast.File
+	written func(string) bool // fields written somewhere in package scheduler
+	ld      *localDefs
+	hoists  map[string]ast.Expr
 
 	// roles of the loop's locals ("" = not found)
 	ongoingVar, pendingVar, waitingVar, readyVar string
@@ -109,7 +212,15 @@ type wscan struct {
 	recvName     string // name of the receiver of the loop method
 }
 
-func (w *wscan) text(n ast.Node) string { return w.r.text(n) }
+// text prints a node; in an expression, a hoisted local (`c := s.concurrency`,
+// bound once, the field never written) is printed as the expression it stands
+// for, so that markers do not depend on whether a field is read through a local.
+func (w *wscan) text(n ast.Node) string {
+	if e, ok := n.(ast.Expr); ok && e != nil {
+		n = substExpr(e, w.hoists)
+	}
+	return w.r.text(n)
+}
 
 func unk(s string) string { return "unknown:" + s }
 
@@ -276,6 +387,11 @@ func (w *wscan) walkStmts(list []ast.Stmt, path []pathElem, fn func(s ast.Stmt, 
 	}
 	for _, s := range list {
 		if isHook(s) {
+			continue
+		}
+		if body, ok := w.r.inlineClosureCall(s, w.ld); ok && len(path) < 24 {
+			// a local closure called here: its statements run here
+			w.walkStmts(body, path, fn)
 			continue
 		}
 		fn(s, path)
@@ -489,6 +605,17 @@ func (w *wscan) chanLocalInfo(fd *ast.FuncDecl, name string) chanLocal {
 	return cl
 }
 
+// positiveIfElse returns condition, then-branch and else-branch of an if/else
+// with the condition in its positive spelling: `if a != b { A } else { B }` is
+// returned as (a == b, B, A), `if !c { A } else { B }` as (c, B, A).
+func (w *wscan) positiveIfElse(is *ast.IfStmt, els *ast.BlockStmt) (ast.Expr, []ast.Stmt, []ast.Stmt) {
+	th, el := w.cleanBlock(is.Body), w.cleanBlock(els)
+	if isNegative(is.Cond) {
+		return negateCond(is.Cond), el, th
+	}
+	return is.Cond, th, el
+}
+
 // dropMainFor removes the condition-less `for { }` elements (they do not
 // restrict anything).
 func dropMainFor(path []pathElem) []pathElem {
@@ -561,6 +688,7 @@ func (w *wscan) scanLoop(f *ast.File) {
 		wf.enqueueArm = append(wf.enqueueArm, m)
 		return
 	}
+	w.enter(fd)
 	wf.roles = append(wf.roles, pair{"loopFunc", funcName(fd)})
 	if fd.Recv != nil && len(fd.Recv.List) == 1 && len(fd.Recv.List[0].Names) == 1 {
 		w.recvName = fd.Recv.List[0].Names[0].Name
@@ -620,7 +748,7 @@ func (w *wscan) scanLoop(f *ast.File) {
 
 	// roles of the locals
 	if sendArm != nil {
-		for _, s := range clean(sendArm.Body) {
+		for _, s := range w.clean(sendArm.Body) {
 			if x, ok := incDec(s, token.INC); ok && identName(x) != "" && w.ongoingVar == "" {
 				w.ongoingVar = identName(x)
 			}
@@ -632,7 +760,7 @@ func (w *wscan) scanLoop(f *ast.File) {
 		_, ch, lhs := commInfo(enqArm)
 		wf.roles = append(wf.roles, pair{"enqueueChan", w.text(ch)})
 		jobVar := identName(lhs[0])
-		for _, s := range clean(enqArm.Body) {
+		for _, s := range w.clean(enqArm.Body) {
 			if x, ok := incDec(s, token.INC); ok && identName(x) != "" && w.pendingVar == "" {
 				w.pendingVar = identName(x)
 			}
@@ -641,7 +769,7 @@ func (w *wscan) scanLoop(f *ast.File) {
 				if !ok {
 					continue
 				}
-				th, el := cleanBlock(is.Body), cleanBlock(eb)
+				_, th, el := w.positiveIfElse(is, eb)
 				if len(th) == 1 && len(el) == 1 {
 					if R, ok := pushTo(th[0], jobVar); ok {
 						if x, ok := incDec(el[0], token.INC); ok && identName(x) != "" {
@@ -764,9 +892,10 @@ func (w *wscan) exitStmt(s ast.Stmt) []string {
 		return unk(w.text(c)), true
 	}
 	switch x := s.(type) {
-	case *ast.RangeStmt:
-		if x.Key == nil && x.Value == nil && len(cleanBlock(x.Body)) == 0 {
-			return []string{"drain:" + w.text(x.X)}
+	case *ast.RangeStmt, *ast.ForStmt:
+		// for range ch {}  /  for { if _, ok := <-ch; !ok { break } }
+		if cl, ok := asChanLoop(s, w.clean); ok && cl.key == nil && len(w.clean(cl.body)) == 0 {
+			return []string{"drain:" + w.text(cl.ch)}
 		}
 	case *ast.ExprStmt:
 		if c, ok := x.X.(*ast.CallExpr); ok {
@@ -781,7 +910,7 @@ func (w *wscan) exitStmt(s ast.Stmt) []string {
 		}
 		if fl, ok := c.Fun.(*ast.FuncLit); ok && len(c.Args) == 0 {
 			var out []string
-			for _, t := range clean(fl.Body.List) {
+			for _, t := range w.clean(fl.Body.List) {
 				out = append(out, w.exitStmt(t)...)
 			}
 			return out
@@ -811,7 +940,7 @@ func condMark(m, cond string) string {
 func (w *wscan) scanAfterFor(fd *ast.FuncDecl, forIdx int) {
 	wf := w.wf
 	// statements after the loop, in order
-	for _, s := range clean(fd.Body.List[forIdx+1:]) {
+	for _, s := range w.clean(fd.Body.List[forIdx+1:]) {
 		if _, ok := s.(*ast.DeferStmt); ok {
 			wf.afterFor = append(wf.afterFor, unk("defer after the loop: "+w.text(s)))
 			continue
@@ -822,7 +951,7 @@ func (w *wscan) scanAfterFor(fd *ast.FuncDecl, forIdx int) {
 	var regs [][]string
 	var collect func(list []ast.Stmt, cond string)
 	collect = func(list []ast.Stmt, cond string) {
-		for _, s := range clean(list) {
+		for _, s := range w.clean(list) {
 			switch x := s.(type) {
 			case *ast.DeferStmt:
 				ms := w.exitStmt(x)
@@ -912,7 +1041,7 @@ func (w *wscan) scanResultArm(cc *ast.CommClause) {
 
 	errBranch := func(is *ast.IfStmt, errVar string) {
 		add("errBranch:" + w.condText(is))
-		for _, s := range cleanBlock(is.Body) {
+		for _, s := range w.cleanBlock(is.Body) {
 			// job.err = err
 			if l, r, ok := assign1(s, token.ASSIGN); ok && isIdent(r, errVar) {
 				if f, ok := selOn(l, jobVar); ok && jobVar != "" {
@@ -922,7 +1051,7 @@ func (w *wscan) scanResultArm(cc *ast.CommClause) {
 				}
 			}
 			if is2, ok := s.(*ast.IfStmt); ok && is2.Init == nil && is2.Else == nil {
-				body := cleanBlock(is2.Body)
+				body := w.cleanBlock(is2.Body)
 				// if !coe { s.err = err; return }
 				if len(body) == 2 {
 					l, r, ok1 := assign1(body[0], token.ASSIGN)
@@ -953,7 +1082,7 @@ func (w *wscan) scanResultArm(cc *ast.CommClause) {
 			}
 			// for _, c := range job.consumers { c.invalid = true }
 			if rs, field, v, ok := rangeOverField(s, jobVar); ok && jobVar != "" {
-				body := cleanBlock(rs.Body)
+				body := w.cleanBlock(rs.Body)
 				if len(body) == 1 {
 					if l, r, ok := assign1(body[0], token.ASSIGN); ok && isIdent(r, "true") {
 						if f, ok := selOn(l, v); ok {
@@ -978,7 +1107,7 @@ func (w *wscan) scanResultArm(cc *ast.CommClause) {
 		add("errBranchEnd")
 	}
 
-	for _, s := range clean(cc.Body) {
+	for _, s := range w.clean(cc.Body) {
 		// job := res.Job
 		if l, r, ok := assign1(s, token.DEFINE); ok && jobVar == "" {
 			if _, ok := selOn(r, resVar); ok && identName(l) != "" {
@@ -1024,7 +1153,7 @@ func (w *wscan) scanResultArm(cc *ast.CommClause) {
 		}
 		// notify
 		if rs, field, v, ok := rangeOverField(s, jobVar); ok && jobVar != "" {
-			body := cleanBlock(rs.Body)
+			body := w.cleanBlock(rs.Body)
 			if len(body) == 2 {
 				x, ok1 := incDec(body[0], token.DEC)
 				is, ok2 := body[1].(*ast.IfStmt)
@@ -1033,7 +1162,7 @@ func (w *wscan) scanResultArm(cc *ast.CommClause) {
 					be, ok4 := is.Cond.(*ast.BinaryExpr)
 					if ok3 && ok4 && be.Op == token.EQL && w.text(be.X) == w.text(x) && w.text(be.Y) == "0" {
 						decW, pushed, bad := false, false, false
-						for _, t := range cleanBlock(is.Body) {
+						for _, t := range w.cleanBlock(is.Body) {
 							if y, ok := incDec(t, token.DEC); ok && identName(y) == w.waitingVar && w.waitingVar != "" && !decW {
 								decW = true
 							} else if R, ok := pushTo(t, v); ok && R == w.readyVar && w.readyVar != "" && !pushed {
@@ -1074,10 +1203,10 @@ func (w *wscan) scanEnqueueArm(cc *ast.CommClause) {
 
 	depLoop := func(rs *ast.RangeStmt, dep string) {
 		add("forDeps:" + w.text(rs.X))
-		for _, s := range cleanBlock(rs.Body) {
+		for _, s := range w.cleanBlock(rs.Body) {
 			if is, ok := s.(*ast.IfStmt); ok && is.Init == nil && is.Else == nil {
 				if f, ok := selOn(is.Cond, dep); ok {
-					body := cleanBlock(is.Body)
+					body := w.cleanBlock(is.Body)
 					last, isCont := ast.Stmt(nil), false
 					if len(body) > 0 {
 						last = body[len(body)-1]
@@ -1095,7 +1224,7 @@ func (w *wscan) scanEnqueueArm(cc *ast.CommClause) {
 							if is2, ok := t.(*ast.IfStmt); ok && is2.Init == nil && is2.Else == nil {
 								if x, ok := cmpNil(is2.Cond, token.NEQ); ok {
 									ef, ok1 := selOn(x, dep)
-									b2 := cleanBlock(is2.Body)
+									b2 := w.cleanBlock(is2.Body)
 									if ok1 && len(b2) == 1 {
 										if l, r, ok := assign1(b2[0], token.ASSIGN); ok && isIdent(r, "true") {
 											if inv, ok := selOn(l, jobVar); ok {
@@ -1151,11 +1280,11 @@ func (w *wscan) scanEnqueueArm(cc *ast.CommClause) {
 		add("endDeps")
 	}
 
-	for _, s := range clean(cc.Body) {
+	for _, s := range w.clean(cc.Body) {
 		if is, ok := s.(*ast.IfStmt); ok && is.Init == nil {
 			// if !ok { ch = nil; break }
 			if is.Else == nil && okVar != "" && w.text(is.Cond) == "!"+okVar {
-				body := cleanBlock(is.Body)
+				body := w.cleanBlock(is.Body)
 				if len(body) == 2 {
 					l, r, ok1 := assign1(body[0], token.ASSIGN)
 					b, ok2 := body[1].(*ast.BranchStmt)
@@ -1171,16 +1300,16 @@ func (w *wscan) scanEnqueueArm(cc *ast.CommClause) {
 			}
 			// if job.remaining == 0 { push } else { waiting++ }
 			if eb, ok := is.Else.(*ast.BlockStmt); ok {
-				th, el := cleanBlock(is.Body), cleanBlock(eb)
+				cond, th, el := w.positiveIfElse(is, eb)
 				if len(th) == 1 && len(el) == 1 {
 					R, ok1 := pushTo(th[0], jobVar)
 					x, ok2 := incDec(el[0], token.INC)
 					if ok1 && ok2 && R == w.readyVar && identName(x) == w.waitingVar && w.waitingVar != "" {
-						if remText != "" && w.text(is.Cond) == remText+" == 0" {
-							add("readyIfZero:" + w.text(is.Cond))
+						if remText != "" && w.text(cond) == remText+" == 0" {
+							add("readyIfZero:" + w.text(cond))
 							add("waitingInc")
 						} else {
-							add(unk("readiness test is not `" + remText + " == 0`: " + w.text(is.Cond)))
+							add(unk("readiness test is not `" + remText + " == 0`: " + w.text(cond)))
 						}
 						continue
 					}
@@ -1327,6 +1456,7 @@ func (w *wscan) scanWorker(f *ast.File) {
 		add(unk("no worker function (started with `go` by New, or named worker)"))
 		return
 	}
+	w.enter(fd)
 	w.wf.roles = append(w.wf.roles, pair{"workerFunc", fd.Name.Name})
 	var params []string
 	readyP, doneP := "", ""
@@ -1372,15 +1502,24 @@ func (w *wscan) scanWorker(f *ast.File) {
 			}
 			add(m)
 		}
-		for i, s := range clean(list) {
+		stmts := w.clean(list)
+		for i, s := range stmts {
 			if is, ok := s.(*ast.IfStmt); ok && is.Init == nil {
-				body := cleanBlock(is.Body)
-				if len(body) == 1 && is.Else == nil && i == 0 && cond == "" && identName(is.Cond) != "" {
+				body := w.cleanBlock(is.Body)
+				if len(body) == 1 && is.Else == nil && i == 0 && cond == "" && guardVar == "" && identName(is.Cond) != "" {
 					if r, ok := body[0].(*ast.ReturnStmt); ok && len(r.Results) == 0 {
 						guardVar = identName(is.Cond)
 						add("deferGuard:" + w.text(is.Cond))
 						continue
 					}
+				}
+				// the same guard the other way round: the whole deferred function is
+				// `if !clean { ... }`
+				if is.Else == nil && i == 0 && len(stmts) == 1 && cond == "" && guardVar == "" && isNegative(is.Cond) && identName(negateCond(is.Cond)) != "" {
+					guardVar = identName(negateCond(is.Cond))
+					add("deferGuard:" + guardVar)
+					deferred(is.Body.List, "")
+					continue
 				}
 				if is.Else == nil {
 					c := "(" + w.text(is.Cond) + ")"
@@ -1407,10 +1546,17 @@ func (w *wscan) scanWorker(f *ast.File) {
 		}
 	}
 
-	loopBody := func(rs *ast.RangeStmt) {
-		j := identName(rs.Key)
+	loopBody := func(cl chanLoop) {
+		j := identName(cl.key)
 		resVar := ""
-		for _, s := range cleanBlock(rs.Body) {
+		// `e := j.ctx.Err()` bound once, ahead of the chain that tests it: the chain is
+		// read as if it had the binding in its header (`if e := j.ctx.Err(); e != nil`)
+		ctxHoist := map[string]ast.Stmt{}
+		for _, s := range w.clean(cl.body) {
+			if l, r, ok := assign1(s, token.DEFINE); ok && identName(l) != "" && ctxErrCall(r, j) && w.ld.constant(identName(l)) {
+				ctxHoist[identName(l)] = s
+				continue
+			}
 			// res := jobResult{Job: j}
 			if l, r, ok := assign1(s, token.DEFINE); ok && resVar == "" {
 				if _, ok := r.(*ast.CompositeLit); ok && identName(l) != "" {
@@ -1437,8 +1583,8 @@ func (w *wscan) scanWorker(f *ast.File) {
 			if brs, ok := w.branchesOf(s); ok {
 				recognised := true
 				var ms []string
-				for _, b := range brs {
-					body := clean(b.body)
+				for bi, b := range brs {
+					body := w.clean(b.body)
 					var l, r ast.Expr
 					one := false
 					if len(body) == 1 {
@@ -1462,15 +1608,19 @@ func (w *wscan) scanWorker(f *ast.File) {
 						// context check
 						if x, ok := cmpNil(b.cond, token.NEQ); ok {
 							errVar := ""
+							head := b.head
 							if b.init != nil {
 								if il, ir, ok := assign1(b.init, token.DEFINE); ok && ctxErrCall(ir, j) && isIdent(x, identName(il)) {
 									errVar = identName(il)
 								}
 							} else if ctxErrCall(x, j) {
 								errVar = "\x00"
+							} else if def, ok := ctxHoist[identName(x)]; ok && bi == 0 {
+								errVar = identName(x)
+								head = w.text(def) + "; " + head
 							}
 							if errVar != "" {
-								ms = append(ms, "ctxCheck:"+b.head)
+								ms = append(ms, "ctxCheck:"+head)
 								if one && (isIdent(r, errVar) || (errVar == "\x00" && ctxErrCall(r, j))) {
 									ms = append(ms, "ctxSkip:"+w.text(body[0]))
 								} else {
@@ -1518,7 +1668,7 @@ func (w *wscan) scanWorker(f *ast.File) {
 		}
 	}
 
-	for _, s := range clean(fd.Body.List) {
+	for _, s := range w.clean(fd.Body.List) {
 		switch x := s.(type) {
 		case *ast.DeclStmt:
 			if gd, ok := x.Decl.(*ast.GenDecl); ok && gd.Tok == token.VAR {
@@ -1539,10 +1689,11 @@ func (w *wscan) scanWorker(f *ast.File) {
 				add("endDefer")
 				continue
 			}
-		case *ast.RangeStmt:
-			if x.Value == nil && x.Tok == token.DEFINE && identName(x.Key) != "" && isIdent(x.X, readyP) && readyP != "" {
-				add("rangeReady:" + w.text(x.Key) + " := range " + w.text(x.X))
-				loopBody(x)
+		case *ast.RangeStmt, *ast.ForStmt:
+			// for j := range readyc { ... }  /  for { j, ok := <-readyc; if !ok { break }; ... }
+			if cl, ok := asChanLoop(s, w.clean); ok && identName(cl.key) != "" && isIdent(cl.ch, readyP) && readyP != "" {
+				add("rangeReady:" + w.text(cl.key) + " := range " + w.text(cl.ch))
+				loopBody(cl)
 				add("endRange")
 				continue
 			}
@@ -1582,7 +1733,7 @@ func ctxParam(fd *ast.FuncDecl) string {
 // returnsOf summarises an arm body: `returns:<e>`, `returns:<a> ?: <b>` for
 // `v := a; if v == nil { v = b }; return v`, and `unknown:` for anything else.
 func (w *wscan) returnsOf(list []ast.Stmt) []string {
-	body := clean(list)
+	body := w.clean(list)
 	if len(body) == 1 {
 		if r, ok := body[0].(*ast.ReturnStmt); ok && len(r.Results) == 1 {
 			return []string{"returns:" + w.text(r.Results[0])}
@@ -1594,7 +1745,7 @@ func (w *wscan) returnsOf(list []ast.Stmt) []string {
 		r, ok3 := body[2].(*ast.ReturnStmt)
 		if ok1 && ok2 && ok3 && identName(l) != "" && is.Init == nil && is.Else == nil && len(r.Results) == 1 && isIdent(r.Results[0], identName(l)) {
 			if x, ok := cmpNil(is.Cond, token.EQL); ok && isIdent(x, identName(l)) {
-				ib := cleanBlock(is.Body)
+				ib := w.cleanBlock(is.Body)
 				if len(ib) == 1 {
 					if l2, b, ok := assign1(ib[0], token.ASSIGN); ok && isIdent(l2, identName(l)) {
 						return []string{"returns:" + w.text(a) + " ?: " + w.text(b)}
@@ -1625,6 +1776,7 @@ func (w *wscan) scanWait(f *ast.File) {
 		add(unk("no method Scheduler.Wait"))
 		return
 	}
+	w.enter(fd)
 	ctx := ctxParam(fd)
 	isDone := func(e ast.Expr) bool {
 		c, ok := e.(*ast.CallExpr)
@@ -1634,7 +1786,7 @@ func (w *wscan) scanWait(f *ast.File) {
 		f, ok := selOn(c.Fun, ctx)
 		return ok && ctx != "" && f == "Done"
 	}
-	for _, s := range clean(fd.Body.List) {
+	for _, s := range w.clean(fd.Body.List) {
 		switch x := s.(type) {
 		case *ast.ExprStmt:
 			if c, ok := x.X.(*ast.CallExpr); ok && isIdent(c.Fun, "close") && len(c.Args) == 1 {
@@ -1690,7 +1842,8 @@ func (w *wscan) scanEnqueue(f *ast.File) {
 		add(unk("no method Scheduler.Enqueue"))
 		return
 	}
-	for _, s := range clean(fd.Body.List) {
+	w.enter(fd)
+	for _, s := range w.clean(fd.Body.List) {
 		switch x := s.(type) {
 		case *ast.AssignStmt:
 			if l, r, ok := assign1(s, token.DEFINE); ok && identName(l) != "" {
@@ -1720,7 +1873,7 @@ func (w *wscan) scanEnqueue(f *ast.File) {
 				default:
 					add("arm:" + w.text(cc.Comm))
 				}
-				for _, t := range clean(cc.Body) {
+				for _, t := range w.clean(cc.Body) {
 					add("armBody:" + w.text(t))
 				}
 			}
@@ -1749,7 +1902,7 @@ func (r *repo) scanSchedulerWiring(wf *wiringFacts) {
 		}
 		return
 	}
-	w := &wscan{r: r, wf: wf}
+	w := &wscan{r: r, wf: wf, file: sf.ast, written: r.fieldsWrittenIn("scheduler")}
 	w.scanWait(sf.ast) // fixes the finished channel
 	w.scanLoop(sf.ast) // fixes the field names
 	w.scanWorker(sf.ast)
